@@ -21,6 +21,11 @@ type VSVal struct {
 	Tok  int    `json:"tok"`
 	Dyn  int    `json:"d"`             // concrete type carrying the token (== Type unless Type is an interface)
 	Raw  bool   `json:"raw,omitempty"` // interface-typed: store the concrete reflect.Value (not one of interface type)
+	// Via (+1; 0 = none), interface-typed and not Raw: the stored reflect.Value
+	// is of ANOTHER interface type that is assignable to the declared one (a
+	// wider interface, a twin) -- the shape of a value copied over from the
+	// result set of another function.
+	Via int `json:"via,omitempty"`
 }
 
 // C15Case: Mode "set" = NewValueSet round-trips; "lifted" = value sets of a
@@ -162,7 +167,11 @@ func evalC15Set(v *engine.Verdict, x *C15Case) {
 		}
 		val := engine.MakeValue(w.Dyn, w.Tok)
 		if engine.IsIface(w.Type) && !w.Raw {
-			slot := reflect.New(engine.Types[w.Type]).Elem()
+			st := w.Type
+			if w.Via > 0 {
+				st = w.Via - 1
+			}
+			slot := reflect.New(engine.Types[st]).Elem()
 			slot.Set(val)
 			val = slot
 		}
@@ -201,7 +210,7 @@ func evalC15Set(v *engine.Verdict, x *C15Case) {
 	// expected token to be unique: only when no two values share a type.
 	typeSeen := map[int]bool{}
 	uniqTypes := true
-	hasIface, rawIface := false, false
+	hasIface, rawIface, viaIface := false, false, false
 	for i, w := range x.Vals {
 		if typeSeen[w.Type] {
 			uniqTypes = false
@@ -215,6 +224,9 @@ func evalC15Set(v *engine.Verdict, x *C15Case) {
 			hasIface = true
 			if w.Raw {
 				rawIface = true
+			}
+			if w.Via > 0 && !w.Raw {
+				viaIface = true
 			}
 			for j, o := range x.Vals {
 				if j != i && (engine.Implements(o.Type, w.Type) || engine.Implements(o.Dyn, w.Type)) {
@@ -231,6 +243,9 @@ func evalC15Set(v *engine.Verdict, x *C15Case) {
 		// (v.Value = reflect.ValueOf(impl)): it still travels under the
 		// entry's declared type
 		v.Class("args-round-trip-with-concrete-value-in-interface-entry")
+	}
+	if uniqTypes && viaIface {
+		v.Class("args-round-trip-with-value-of-another-interface-type-in-interface-entry")
 	}
 	if uniqTypes && len(x.Vals) > 0 {
 		inSet, err := argmapper.NewValueSet(vsValues(x.Vals))
@@ -805,6 +820,17 @@ func genC15(g engine.G) *engine.Case {
 			if engine.IsIface(val.Type) {
 				val.Dyn = engine.Pick(g, engine.Implementers(val.Type))
 				val.Raw = g.Bool()
+				if !val.Raw && g.Pct(40) {
+					var cands []int
+					for t2 := 0; t2 < engine.NumTypes; t2++ {
+						if t2 != val.Type && engine.IsIface(t2) && engine.Types[t2].AssignableTo(engine.Types[val.Type]) && engine.Implements(val.Dyn, t2) {
+							cands = append(cands, t2)
+						}
+					}
+					if len(cands) > 0 {
+						val.Via = engine.Pick(g, cands) + 1
+					}
+				}
 			}
 			if g.Pct(55) {
 				val.Name = engine.Pick(g, names)
